@@ -307,13 +307,20 @@ def gen_cycle_design(r, wordlevel=False):
         fr = lambda width: ["slice", ["sig", r.choice(["f0", "f1"]), 4, False], 0, width, None]
         c = r.random()
         if wordlevel:
-            op = r.choice(["add", "sub", "shl", "lt", "mul", "bit_select", "word_select", "bit_select"])
+            op = r.choice(["add", "sub", "shl", "shr", "shr", "lt", "mul", "bit_select", "word_select", "bit_select"])
             if op in ("bit_select", "word_select"):
                 # a part of a wider source chosen by a free offset: every value bit can reach the output
                 sw_ = min(tw + r.randint(1, 2), 4)
                 e = ["slice", [op, src(sw_), ["slice", ["sig", "f0", 4, False], 0, 2, None], max(tw, 2) if op == "bit_select" else tw], 0, tw, None]
             else:
-                e = ["slice", [op, src(tw), fr(min(tw, 2)) if op == "shl" else src(tw)], 0, tw, None]
+                if op in ("shl", "shr"):
+                    # operands of different widths; the amount may come from the design itself (a loop through the amount)
+                    vw = min(tw + r.randint(0, 2), 4)
+                    amt = fr(r.randint(1, 2)) if r.random() < 0.5 else src(r.randint(1, 2))
+                    e = ["slice", [op, src(vw), amt], vw - tw if op == "shr" and r.random() < 0.5 else 0, None, None]
+                    e = ["slice", e, 0, tw, None]
+                else:
+                    e = ["slice", [op, src(tw), src(tw)], 0, tw, None]
         elif c < 0.12:
             # a reduction: its single output bit is wired from every bit of the operand
             e = [r.choice(["bool", "any", "all", "xorr"]), src(r.randint(2, 3))]
@@ -769,6 +776,13 @@ def corner_cycles():
     out.append({"signals": {"a0": 3, "a1": 1}, "free": free, "wordlevel": False,
                 "stmts": [{"place": "c1", "domain": "comb", "target": T_("a0", 3, 2, 3), "rhs": ["any", sl("a0", 3, 0, 2)], "cond": None},
                           {"place": "top", "domain": "comb", "target": T_("a1", 1, 0, 1), "rhs": ["all", A("a0", 3)], "cond": None}]})
+    # loops through the HIGH bits of a shifted value and through a shift amount wider than ... the other operand
+    out.append({"signals": {"a0": 4, "a1": 1}, "free": free, "wordlevel": True,
+                "stmts": [{"place": "top", "domain": "comb", "target": T_("a0", 4, 3, 4), "rhs": ["slice", ["shr", A("a0", 4), sl("f0", 4, 0, 1)], 3, 4, None], "cond": None}]})
+    out.append({"signals": {"a0": 3, "a1": 2}, "free": free, "wordlevel": True,
+                "stmts": [{"place": "c1", "domain": "comb", "target": T_("a0", 3, 2, 3), "rhs": ["slice", ["shr", sl("f0", 4, 0, 2), A("a0", 3)], 0, 1, None], "cond": None}]})
+    out.append({"signals": {"a0": 3, "a1": 2}, "free": free, "wordlevel": True,
+                "stmts": [{"place": "c2", "domain": "comb", "target": T_("a0", 3, 2, 3), "rhs": ["slice", ["shl", A("a0", 3), sl("f0", 4, 0, 1)], 2, 3, None], "cond": None}]})
     # carry chain: bit 0 of a sum does not depend on bit 1 of the operands, but word-level analysis may say so (accepted either way)
     out.append({"signals": {"a0": 2, "a1": 2}, "free": free, "wordlevel": True,
                 "stmts": [{"place": "top", "domain": "comb", "target": T_("a0", 2, 1, 2), "rhs": ["slice", ["add", sl("a0", 2, 0, 1), sl("f0", 4, 0, 1)], 0, 1, None], "cond": None}]})
